@@ -697,6 +697,10 @@ func (R *Renderer) call(x *ssa.Call) string {
 	for _, a := range cc.Args {
 		args = append(args, R.V(a))
 	}
+	if g, _ := injectedCallee(cc); g != nil {
+		// a dependency injected through a field that only ever holds g
+		return FnName(g) + "(" + strings.Join(args, ",") + ")"
+	}
 	if cc.IsInvoke() {
 		// the receiver was converted to the interface right here: the callee is known
 		if m, recv := devirtualise(cc); m != nil {
